@@ -9,6 +9,7 @@ the same order as the Python.  A filter is run the way `Filter.evaluate` runs it
 left value (outside the decorator's `try`), the call (arity `TypeError` included), the decorator's handlers, then
 `Filter.evaluate`'s handlers.
 -/
+set_option linter.unusedVariables false
 namespace LiquidVerif.C02
 open LiquidVerif.Gen.C02 Cls Res
 
@@ -202,180 +203,297 @@ def babelDatetime (l : Cls) : Res Unit :=
   else if l.isNum then fmtNum (some l)
   else raise .LiquidTypeError
 
+def st_at_most (l : Cls) : Steps :=
+  { s1 := fun a => match a with | none => pure () | some a => (numArg a (some int_zero)).unit }
+
+def st_ceil (l : Cls) : Steps :=
+  { s0 := pyCeil l }
+
+def st_divided_by (l : Cls) : Steps :=
+  { s1 := fun a => match a with
+  | none => pure ()
+  | some a => do
+    let o ← numArg a (some int_zero)
+    tryCatch (if o.isInt && l.isInt then pyIntDiv l o else pyTrueDiv l o) catch_builtin_filters_math_divided_by_0 noOverride }
+
+def st_minus (l : Cls) : Steps :=
+  { s1 := arith .minus l }
+
+def st_plus (l : Cls) : Steps :=
+  { s1 := arith .plus l }
+
+def st_times (l : Cls) : Steps :=
+  { s1 := arith .times l }
+
+def st_modulo (l : Cls) : Steps :=
+  { s1 := fun a => match a with
+  | none => pure ()
+  | some a => do
+    let o ← numArg a (some int_zero)
+    tryCatch (if l.isInt && o.isInt then pyIntDiv l o
+              else do pyDecimalOfNum l; pyDecimalOfNum o; pyDecArith .modulo l o)
+      catch_builtin_filters_math_modulo_0 noOverride }
+
+def st_round (l : Cls) : Steps :=
+  { s1 := fun a => match a with
+  | none => pyCeil l
+  | some nd =>
+    if nd == none_ || nd == undefined then pyCeil l else do
+      let r ← tryCatch ((numArg nd none).bind (fun c => pure (some c))) catch_builtin_filters_math_round__0
+                (fun _ => some (pure none))
+      match r with
+      | none => pyCeil l
+      | some n => do
+        let n' ← if n.isFloat then pyInt n else pure n
+        if n' == int_neg then pure ()
+        else if n'.isZero then pyCeil l
+        else pure () }
+
+def st_url_encode (l : Cls) : Steps :=
+  { s0 := pyEncode l }
+
+def st_base64_decode (l : Cls) : Steps :=
+  { s0 := tryCatch (pyB64DecodeUtf8 l) catch_builtin_filters_string_base64_decode_0 noOverride }
+
+def st_base64_url_safe_decode (l : Cls) : Steps :=
+  { s0 := tryCatch (pyB64DecodeUtf8 l) catch_builtin_filters_string_base64_url_safe_decode_0 noOverride }
+
+def st_append (l : Cls) : Steps :=
+  { s1 := optStr }
+
+def st_remove_last (l : Cls) : Steps :=
+  { s1 := fun a => tryCatch (optStr a) catch_builtin_filters_string_remove_last_0 (fun _ => some (pure ())) }
+
+def st_replace (l : Cls) : Steps :=
+  { s1 := optStr, s2 := optStr }
+
+def st_replace_last (l : Cls) : Steps :=
+  {
+  s1 := fun a => tryCatch (optStr a) catch_builtin_filters_string_replace_last_0 (fun _ => some (pure ())),
+  s2 := fun a => Res.alt (pure ()) (optStr a) }     -- `soft_str(sub)` only when `seq` occurs (or was rejected)
+
+def st_split (l : Cls) : Steps :=
+  { s1 := fun a => match a with
+  | none => pure ()
+  | some c => if c == undefined || c == none_ || c == str_empty then pure () else (pyStr c).unit }
+
+def st_truncate (l : Cls) : Steps :=
+  { s1 := truncNum catch_builtin_filters_string_truncate_0, s2 := optStr }
+
+def st_truncatewords (l : Cls) : Steps :=
+  { s1 := truncNum catch_builtin_filters_string_truncatewords_0, s2 := optStr }
+
+def st_slice (l : Cls) : Steps :=
+  {
+  s0 := if l.isList || l == range_ || l.isStr then pure () else (pyStr l).unit,
+  s1 := fun a => match a with
+    | none => pure ()
+    | some c => if c == undefined then raise .FilterArgumentError else sliceArg c,
+  s2 := fun a => match a with
+    | none => pure ()
+    | some c => if c == undefined then pure () else sliceArg c }
+
+def st_join (l : Cls) : Steps :=
+  { s1 := optStr, sEnd := strItems l }
+
+def st_concat (l : Cls) : Steps :=
+  { s1 := fun a => match a with
+  | none => pure ()
+  | some c => if c.isList then pure () else raise .FilterArgumentError }
+
+def st_map (l : Cls) : Steps :=
+  { s1 := fun a => match a with
+  | none => pure ()
+  | some k => whenItems l (tryCatch (do
+        let ks ← pyStr k
+        forItems l (fun e => getitemH e ks)) catch_builtin_filters_array_map__0 noOverride) }
+
+def st_sort (l : Cls) : Steps :=
+  { s1 := fun a =>
+  let unkeyed := tryCatch (pySorted l) catch_builtin_filters_array_sort_0 noOverride
+  match a with
+  | none => unkeyed
+  | some k => if k.pyFalsy then unkeyed else do
+      let ks ← pyStr k
+      forItems l (fun e => getitemH e ks)
+      -- comparing the extracted keys (a missing key sorts as a string)
+      if l == list_dict_gap || l == list_mixed then Res.alt (pure ()) (raise .TypeError) else pure () }
+
+def st_sort_natural (l : Cls) : Steps :=
+  { s1 := fun a => match a with
+  | none => strItems l
+  | some k => if k.pyFalsy then strItems l else do
+      let ks ← pyStr k
+      forItems l (fun e => getitemH e ks) }
+
+def st_where (l : Cls) : Steps :=
+  { s1 := attrStep l }
+
+def st_reject (l : Cls) : Steps :=
+  { s1 := fun a => match a with
+  | none => pure ()
+  | some k => if k == none_ || k == undefined then pure () else forItems l (fun e => getitemH e k) }
+
+def st_uniq (l : Cls) : Steps :=
+  { s1 := fun a => match a with
+  | none => pure ()
+  | some k => if k == none_ then pure () else
+      forItems l (fun e => tryCatch (pyGetitem e k) catch_builtin_filters_array_uniq_0 (fun i =>
+        match i with
+        | 0 => some (pure ())
+        | _ => some (do let _ ← pyStr k; strItems l; raise .FilterArgumentError))) }   -- the message formats `key` and the item
+
+def st_compact (l : Cls) : Steps :=
+  { s1 := fun a => match a with
+  | none => pure ()
+  | some k => if k == none_ then pure () else
+      tryCatch (forItems l (fun e => pyGetitem e k)) catch_builtin_filters_array_compact_0
+        (fun _ => some (do let _ ← pyStr k; raise .FilterArgumentError)) }            -- the message formats `key`
+
+def st_sum (l : Cls) : Steps :=
+  { s1 := fun a =>
+  let unkeyed : Res Unit := do
+    if l.isStr then decimalArg l (some ()) else pure ()
+    pySumDecimals l
+  match a with
+  | none => unkeyed
+  | some k => if k == none_ || k == undefined then unkeyed else forItems l (fun e => getitemH e k) }
+
+def st_date (l : Cls) : Steps :=
+  {
+  -- `functools.lru_cache` hashes both arguments first
+  s0 := if l.isList || l.isDict then raise .TypeError else pure (),
+  s1 := fun a => match a with
+    | none => pure ()
+    | some fmt =>
+      if fmt.isList || fmt.isDict then raise .TypeError
+      else if l == undefined then pure ()
+      else if fmt == undefined then (pyStr l).unit
+      else do
+        -- parse `dat`; `false` = the filter returned `str(dat)` early
+        let cont ← (if l.isStr then
+            if strIsDigit l then do let n ← pyInt l; pyFromTimestamp n; pure true
+            else tryCatch ((pyDateParse l).bind fun _ => pure true) catch_builtin_filters_misc_date_0 (fun _ => some (pure false))
+          else if l.isInt then
+            tryCatch ((pyFromTimestamp l).bind fun _ => pure true) catch_builtin_filters_misc_date_1
+              (fun _ => some ((pyStr l).bind fun _ => pure false))
+          else raise .FilterArgumentError : Res Bool)
+        -- `dat.strftime(fmt)`
+        if cont then
+          tryCatch (if fmt.isStr then pyEncode fmt else raise .TypeError) catch_builtin_filters_misc_date_2 noOverride
+        else pure () }
+
+def st_json (l : Cls) : Steps :=
+  { s1 := fun a => do
+  (match a with
+   | none => pure ()
+   | some n => if n.pyFalsy then pure () else do
+       let i ← intArg n none
+       if jsonUsesIndent l then pyJsonIndent i else pure ())
+  if l == undefined || l == range_ then raise .TypeError
+  else if l == int_giant then raise .ValueError
+  else pure () }
+
+def st_index (l : Cls) : Steps :=
+  { s1 := fun a => match a with
+  | none => pure ()
+  | some _ => if l == undefined then raise .AttributeError else pure () }
+
+def st_sort_numeric (l : Cls) : Steps :=
+  { s1 := fun a =>
+  -- `_ints(item)`: ints are taken as they are, anything else through `to_int` of its digit runs
+  let unkeyed : Res Unit := if l == str_hugeint then raise .LiquidValueError else pure ()
+  match a with
+  | none => unkeyed
+  | some k => if k.pyFalsy then unkeyed else (pyStr k).unit }
+
+def st_t (l : Cls) : Steps :=
+  { s0 := (toLiquidString l).unit, s1 := optTLS, sEnd := fmtOf l }
+
+def st_gettext (l : Cls) : Steps :=
+  { s0 := (toLiquidString l).unit, sEnd := fmtOf l }
+
+def st_pgettext (l : Cls) : Steps :=
+  { s0 := (toLiquidString l).unit, s1 := optTLS, sEnd := fmtOf l }
+
+def st_ngettext (l : Cls) : Steps :=
+  {
+  s0 := (toLiquidString l).unit, s1 := pluralStep,
+  s2 := fun a => match a with | none => pure () | some c => (intArg c (some int_pos)).unit,
+  sEnd := Res.alt (pure ()) (fmtOf l) }
+
+def st_npgettext (l : Cls) : Steps :=
+  {
+  s0 := (toLiquidString l).unit, s1 := optTLS, s2 := pluralStep,
+  s3 := fun a => match a with | none => pure () | some c => (intArg c (some int_pos)).unit,
+  sEnd := Res.alt (pure ()) (fmtOf l) }
+
+def st_currency (l : Cls) : Steps :=
+  { s0 := babelDecimal l }
+
+def st_datetime (l : Cls) : Steps :=
+  { s0 := babelDatetime l }
+
+def st_unit (l : Cls) : Steps :=
+  { s1 := fun a => match a with
+  | none => pure ()
+  | some u =>
+    if u == str_empty || u == str_key then
+      (match l with
+       | int_huge | int_giant | str_hugeint | str_exp => raise .decimal_InvalidOperation
+       | float_inf | float_ninf | str_inf => raise .OverflowError
+       | float_nan | str_nan => raise .ValueError
+       | _ => pure ())
+    else Res.alt (raise .babel_UnknownUnitError) (raise .TypeError) }
+
+/-- the steps of every registered filter (one small definition per filter, so that evaluation stays cheap) -/
 def steps (f : FilterName) (l : Cls) : Steps :=
   match f with
-  -- maths (l is a number: `math_filter` ran `num_arg(val, 0)`)
   | .abs_ => {}
-  | .at_most_ | .at_least_ => { s1 := fun a => match a with | none => pure () | some a => (numArg a (some int_zero)).unit }
-  | .ceil_ | .floor_ => { s0 := pyCeil l }
-  | .divided_by_ => { s1 := fun a => match a with
-      | none => pure ()
-      | some a => do
-        let o ← numArg a (some int_zero)
-        tryCatch (if o.isInt && l.isInt then pyIntDiv l o else pyTrueDiv l o) catch_builtin_filters_math_divided_by_0 noOverride }
-  | .minus_ => { s1 := arith .minus l }
-  | .plus_ => { s1 := arith .plus l }
-  | .times_ => { s1 := arith .times l }
-  | .modulo_ => { s1 := fun a => match a with
-      | none => pure ()
-      | some a => do
-        let o ← numArg a (some int_zero)
-        tryCatch (if l.isInt && o.isInt then pyIntDiv l o
-                  else do pyDecimalOfNum l; pyDecimalOfNum o; pyDecArith .modulo l o)
-          catch_builtin_filters_math_modulo_0 noOverride }
-  | .round_ => { s1 := fun a => match a with
-      | none => pyCeil l
-      | some nd =>
-        if nd == none_ || nd == undefined then pyCeil l else do
-          let r ← tryCatch ((numArg nd none).bind (fun c => pure (some c))) catch_builtin_filters_math_round__0
-                    (fun _ => some (pure none))
-          match r with
-          | none => pyCeil l
-          | some n => do
-            let n' ← if n.isFloat then pyInt n else pure n
-            if n' == int_neg then pure ()
-            else if n'.isZero then pyCeil l
-            else pure () }
-  -- strings (l is a string: `string_filter` ran `str(val)`)
+  | .at_most_ | .at_least_ => st_at_most l
+  | .ceil_ | .floor_ => st_ceil l
+  | .divided_by_ => st_divided_by l
+  | .minus_ => st_minus l
+  | .plus_ => st_plus l
+  | .times_ => st_times l
+  | .modulo_ => st_modulo l
+  | .round_ => st_round l
   | .capitalize_ | .downcase_ | .upcase_ | .lstrip_ | .rstrip_ | .strip_ | .squish_ | .strip_html_ | .strip_newlines_
   | .newline_to_br_ | .escape_ | .escape_once_ | .url_decode_ | .safe_ | .escapejs_ | .script_tag_ | .stylesheet_tag_ => {}
-  | .url_encode_ | .base64_encode_ | .base64_url_safe_encode_ => { s0 := pyEncode l }
-  | .base64_decode_ => { s0 := tryCatch (pyB64DecodeUtf8 l) catch_builtin_filters_string_base64_decode_0 noOverride }
-  | .base64_url_safe_decode_ => { s0 := tryCatch (pyB64DecodeUtf8 l) catch_builtin_filters_string_base64_url_safe_decode_0 noOverride }
-  | .append_ | .prepend_ | .remove_ | .remove_first_ => { s1 := optStr }
-  | .remove_last_ => { s1 := fun a => tryCatch (optStr a) catch_builtin_filters_string_remove_last_0 (fun _ => some (pure ())) }
-  | .replace_ | .replace_first_ => { s1 := optStr, s2 := optStr }
-  | .replace_last_ => {
-      s1 := fun a => tryCatch (optStr a) catch_builtin_filters_string_replace_last_0 (fun _ => some (pure ())),
-      s2 := fun a => Res.alt (pure ()) (optStr a) }     -- `soft_str(sub)` only when `seq` occurs (or was rejected)
-  | .split_ => { s1 := fun a => match a with
-      | none => pure ()
-      | some c => if c == undefined || c == none_ || c == str_empty then pure () else (pyStr c).unit }
-  | .truncate_ => { s1 := truncNum catch_builtin_filters_string_truncate_0, s2 := optStr }
-  | .truncatewords_ => { s1 := truncNum catch_builtin_filters_string_truncatewords_0, s2 := optStr }
-  | .slice_ => {
-      s0 := if l.isList || l == range_ || l.isStr then pure () else (pyStr l).unit,
-      s1 := fun a => match a with
-        | none => pure ()
-        | some c => if c == undefined then raise .FilterArgumentError else sliceArg c,
-      s2 := fun a => match a with
-        | none => pure ()
-        | some c => if c == undefined then pure () else sliceArg c }
-  -- arrays
-  | .join_ => { s1 := optStr, sEnd := strItems l }
+  | .url_encode_ | .base64_encode_ | .base64_url_safe_encode_ => st_url_encode l
+  | .base64_decode_ => st_base64_decode l
+  | .base64_url_safe_decode_ => st_base64_url_safe_decode l
+  | .append_ | .prepend_ | .remove_ | .remove_first_ => st_append l
+  | .remove_last_ => st_remove_last l
+  | .replace_ | .replace_first_ => st_replace l
+  | .replace_last_ => st_replace_last l
+  | .split_ => st_split l
+  | .truncate_ => st_truncate l
+  | .truncatewords_ => st_truncatewords l
+  | .slice_ => st_slice l
+  | .join_ => st_join l
   | .first_ | .last_ | .reverse_ | .size_ | .default_ => {}
-  | .concat_ => { s1 := fun a => match a with
-      | none => pure ()
-      | some c => if c.isList then pure () else raise .FilterArgumentError }
-  | .map_ => { s1 := fun a => match a with
-      | none => pure ()
-      | some k => whenItems l (tryCatch (do
-            let ks ← pyStr k
-            forItems l (fun e => getitemH e ks)) catch_builtin_filters_array_map__0 noOverride) }
-  | .sort_ => { s1 := fun a =>
-      let unkeyed := tryCatch (pySorted l) catch_builtin_filters_array_sort_0 noOverride
-      match a with
-      | none => unkeyed
-      | some k => if k.pyFalsy then unkeyed else do
-          let ks ← pyStr k
-          forItems l (fun e => getitemH e ks)
-          -- comparing the extracted keys (a missing key sorts as a string)
-          if l == list_dict_gap || l == list_mixed then Res.alt (pure ()) (raise .TypeError) else pure () }
-  | .sort_natural_ => { s1 := fun a => match a with
-      | none => strItems l
-      | some k => if k.pyFalsy then strItems l else do
-          let ks ← pyStr k
-          forItems l (fun e => getitemH e ks) }
-  | .where_ | .find_ | .find_index_ | .has_ => { s1 := attrStep l }
-  | .reject_ => { s1 := fun a => match a with
-      | none => pure ()
-      | some k => if k == none_ || k == undefined then pure () else forItems l (fun e => getitemH e k) }
-  | .uniq_ => { s1 := fun a => match a with
-      | none => pure ()
-      | some k => if k == none_ then pure () else
-          forItems l (fun e => tryCatch (pyGetitem e k) catch_builtin_filters_array_uniq_0 (fun i =>
-            match i with
-            | 0 => some (pure ())
-            | _ => some (do let _ ← pyStr k; strItems l; raise .FilterArgumentError))) }   -- the message formats `key` and the item
-  | .compact_ => { s1 := fun a => match a with
-      | none => pure ()
-      | some k => if k == none_ then pure () else
-          tryCatch (forItems l (fun e => pyGetitem e k)) catch_builtin_filters_array_compact_0
-            (fun _ => some (do let _ ← pyStr k; raise .FilterArgumentError)) }            -- the message formats `key`
-  | .sum_ => { s1 := fun a =>
-      let unkeyed : Res Unit := do
-        if l.isStr then decimalArg l (some ()) else pure ()
-        pySumDecimals l
-      match a with
-      | none => unkeyed
-      | some k => if k == none_ || k == undefined then unkeyed else forItems l (fun e => getitemH e k) }
-  -- misc
-  | .date_ => {
-      -- `functools.lru_cache` hashes both arguments first
-      s0 := if l.isList || l.isDict then raise .TypeError else pure (),
-      s1 := fun a => match a with
-        | none => pure ()
-        | some fmt =>
-          if fmt.isList || fmt.isDict then raise .TypeError
-          else if l == undefined then pure ()
-          else if fmt == undefined then (pyStr l).unit
-          else do
-            -- parse `dat`; `false` = the filter returned `str(dat)` early
-            let cont ← (if l.isStr then
-                if strIsDigit l then do let n ← pyInt l; pyFromTimestamp n; pure true
-                else tryCatch ((pyDateParse l).bind fun _ => pure true) catch_builtin_filters_misc_date_0 (fun _ => some (pure false))
-              else if l.isInt then
-                tryCatch ((pyFromTimestamp l).bind fun _ => pure true) catch_builtin_filters_misc_date_1
-                  (fun _ => some ((pyStr l).bind fun _ => pure false))
-              else raise .FilterArgumentError : Res Bool)
-            -- `dat.strftime(fmt)`
-            if cont then
-              tryCatch (if fmt.isStr then pyEncode fmt else raise .TypeError) catch_builtin_filters_misc_date_2 noOverride
-            else pure () }
-  -- extra
-  | .json_ => { s1 := fun a => do
-      (match a with
-       | none => pure ()
-       | some n => if n.pyFalsy then pure () else do
-           let i ← intArg n none
-           if jsonUsesIndent l then pyJsonIndent i else pure ())
-      if l == undefined || l == range_ then raise .TypeError
-      else if l == int_giant then raise .ValueError
-      else pure () }
-  | .index_ => { s1 := fun a => match a with
-      | none => pure ()
-      | some _ => if l == undefined then raise .AttributeError else pure () }
-  | .sort_numeric_ => { s1 := fun a =>
-      -- `_ints(item)`: ints are taken as they are, anything else through `to_int` of its digit runs
-      let unkeyed : Res Unit := if l == str_hugeint then raise .LiquidValueError else pure ()
-      match a with
-      | none => unkeyed
-      | some k => if k.pyFalsy then unkeyed else (pyStr k).unit }
-  | .t_ => { s0 := (toLiquidString l).unit, s1 := optTLS, sEnd := fmtOf l }
-  | .gettext_ => { s0 := (toLiquidString l).unit, sEnd := fmtOf l }
-  | .pgettext_ => { s0 := (toLiquidString l).unit, s1 := optTLS, sEnd := fmtOf l }
-  -- the count picks the singular (left) or the plural text; either may be the one that is %-formatted
-  | .ngettext_ => {
-      s0 := (toLiquidString l).unit, s1 := pluralStep,
-      s2 := fun a => match a with | none => pure () | some c => (intArg c (some int_pos)).unit,
-      sEnd := Res.alt (pure ()) (fmtOf l) }
-  | .npgettext_ => {
-      s0 := (toLiquidString l).unit, s1 := optTLS, s2 := pluralStep,
-      s3 := fun a => match a with | none => pure () | some c => (intArg c (some int_pos)).unit,
-      sEnd := Res.alt (pure ()) (fmtOf l) }
-  | .currency_ | .money_ | .money_with_currency_ | .money_without_currency_ | .money_without_trailing_zeros_ | .decimal_ =>
-      { s0 := babelDecimal l }
-  | .datetime_ => { s0 := babelDatetime l }
-  | .unit_ => { s1 := fun a => match a with
-      | none => pure ()
-      | some u =>
-        if u == str_empty || u == str_key then
-          (match l with
-           | int_huge | int_giant | str_hugeint | str_exp => raise .decimal_InvalidOperation
-           | float_inf | float_ninf | str_inf => raise .OverflowError
-           | float_nan | str_nan => raise .ValueError
-           | _ => pure ())
-        else Res.alt (raise .babel_UnknownUnitError) (raise .TypeError) }
+  | .concat_ => st_concat l
+  | .map_ => st_map l
+  | .sort_ => st_sort l
+  | .sort_natural_ => st_sort_natural l
+  | .where_ | .find_ | .find_index_ | .has_ => st_where l
+  | .reject_ => st_reject l
+  | .uniq_ => st_uniq l
+  | .compact_ => st_compact l
+  | .sum_ => st_sum l
+  | .date_ => st_date l
+  | .json_ => st_json l
+  | .index_ => st_index l
+  | .sort_numeric_ => st_sort_numeric l
+  | .t_ => st_t l
+  | .gettext_ => st_gettext l
+  | .pgettext_ => st_pgettext l
+  | .ngettext_ => st_ngettext l
+  | .npgettext_ => st_npgettext l
+  | .currency_ | .money_ | .money_with_currency_ | .money_without_currency_ | .money_without_trailing_zeros_ | .decimal_ => st_currency l
+  | .datetime_ => st_datetime l
+  | .unit_ => st_unit l
 
 def body (f : FilterName) (l : Cls) (a0 a1 a2 : Option Cls) : Res Unit :=
   let s := steps f l
@@ -404,11 +522,13 @@ def pre (f : FilterName) (l : Cls) : Res Cls :=
   | some d => decoPre d l
 
 /-- `Filter.evaluate`: `func(left, *args)` under its two handlers.  A filter with more than one exception-relevant
-decorator is outside the model and fails closed. -/
-def runFilter (f : FilterName) (l : Cls) (args : List Cls) : Res Unit :=
-  if f.decos.length > 1 then raise .Exception else
+decorator is outside the model and fails closed (`runFilter`). -/
+def runFilterCore (f : FilterName) (l : Cls) (args : List Cls) : Res Unit :=
   List.flatMap postEval
     ((pre f l).bind fun l' => List.flatMap (postDeco f) (callBody f l' args))
+
+def runFilter (f : FilterName) (l : Cls) (args : List Cls) : Res Unit :=
+  if f.decos.length > 1 then raise .Exception else runFilterCore f l args
 
 /-! ## Tag-level sites: one hole `x` in a template -/
 
@@ -473,5 +593,9 @@ def renderLoop (strict : Bool) (e : Exc) : Res Unit :=
       | 1 => some (pure ())
       | _ => some (if strict then raise e else pure ()))
     (.error e)
+
+/-- a site seen through the render loop (`strict = false`: warn / lax mode) -/
+def runSiteMode (strict : Bool) (s : Site) (x : Cls) : Res Unit :=
+  List.flatMap (fun r => match r with | .ok _ => [.ok ()] | .error e => renderLoop strict e) (runSite s x)
 
 end LiquidVerif.C02
